@@ -314,6 +314,27 @@ def check(F, rep, tier):
             if a in at and b in at and at[a] not in dom.get(at[b], ()): bad.append("%s does not precede %s" % (a, b))
         if not bad: rep.ok("R05.7", "to_zerv: context overrides < schema choice < template resolution < component processing < normalize", nontrivial_key="phases")
         else: rep.bad("R05.7", "phase-order", "to_zerv phase order broken: %s" % bad, tz.where())
+    # ---- R05.9 an override sets its value whenever it is given: the write depends on the flag's presence, not on its value ---------------
+    n_ov = 0
+    for p_, g in sorted(F.fns.items()):
+        if not (p_.startswith("crate::version::zerv::vars::") and "apply_" in p_.rsplit("::", 1)[-1] and "override" in p_.rsplit("::", 1)[-1]) or g.kind == "closure": continue
+        rep.fn_seen(g)
+        for bi, si, st in g.stmts():
+            if st[0] != "=" or len(st[1]) < 2 or st[1][0] != 1: continue
+            fl = [e for e in st[1][1:] if not isinstance(e, str) and e[0] == "f"]
+            if not fl or not fl[-1][3].endswith("vars::ZervVars"): continue
+            n_ov += 1
+            valued = []
+            for d, pol, dd in mir.guards_of(g, bi):
+                if d[0] == "bin" and d[1] in ("Gt", "Ge", "Lt", "Le", "Ne", "Eq"):
+                    # a comparison on the payload of the override flag itself
+                    for opnd in (d[2], d[3]):
+                        if isinstance(opnd, list) and opnd and opnd[0] in ("cp", "mv"):
+                            if any(o.kind == "param" and o.data == 2 and "overrides" in o.path_str() for o in mir.trace_op(g, opnd)): valued.append(d[1])
+            site = "%s bb%d line %s" % (g.where(), bi, g.blocks[bi]["line"])
+            if valued: rep.bad("R05.9", "override-depends-on-value:" + fl[-1][2], "the override of vars.%s is applied only when the given value passes a %s test: some explicitly given values (e.g. 0) are silently ignored" % (fl[-1][2], valued), site)
+            else: rep.ok("R05.9", "override of vars.%s is applied whenever the flag is given" % fl[-1][2], sample=site, nontrivial_key="ov" + p_ + fl[-1][2])
+    rep.floor("R05.9", "override writes in ZervVars::apply_*_overrides", n_ov, 5)
     # ---- R05.8 checked arithmetic ---------------------------------------------------------------------------------------
     cb = zfn(F, "<impl crate::version::zerv::core::Zerv>::checked_bump")
     n_unchecked = 0
